@@ -81,6 +81,9 @@ impl WaitGroup {
       return;
     }
 
+    #[cfg(any(rzmq_verif, kani))]
+    crate::verif_facade::sched_point("WaitGroup::wait:after-check");
+
     // Slow path: Wait for notification.
     loop {
       // Wait until notified. notified() consumes a permit.
